@@ -12,14 +12,14 @@ import (
 
 type c17Case struct {
 	Debug  bool `json:"debug"`
-	ErrPg  int  `json:"error_page"`       // 0 none, 1 valid, 2 missing, 3 fails at run time, 4 valid in a sub-directory
+	ErrPg  int  `json:"error_page"`       // 0 none, 1 valid, 2 missing, 3 fails at run time, 4 valid in a sub-directory, 5 names a layout file (which is not renderable)
 	Page   int  `json:"page"`             // index into c17Pages
 	Kind   int  `json:"kind"`             // which fault the failing page contains
 	Second bool `json:"second,omitempty"` // the same call issued a second time (same body expected)
 	Prior  int  `json:"prior,omitempty"`  // 0 none; 1: a failing Response under the opposite debug mode was served earlier in this process; 2: one under the same mode with another error; 3: the templates were loaded under the opposite debug mode and Configure switched it afterwards
 }
 
-var c17Pages = []string{"ok", "fail-start", "fail-middle", "fail-end", "fail-in-layout", "fail-in-component", "fail-second-pass", "unknown", "fail-in-insert", "fail-after-component", "fail-in-insert-arg"}
+var c17Pages = []string{"ok", "fail-start", "fail-middle", "fail-end", "fail-in-layout", "fail-in-component", "fail-second-pass", "unknown", "fail-in-insert", "fail-after-component", "fail-in-insert-arg", "layout-name"}
 
 var c17Faults = []struct{ src, msgPart string }{
 	{"{{ secretVar }}", "secretVar"},
@@ -79,6 +79,9 @@ func c17Tree(cs c17Case) (Tree, string) {
 	case "unknown":
 		t.Files["p.tw"] = c17Marker + "1 exists"
 		name = "nope/missing"
+	case "layout-name": // the name of a file that was loaded as a layout: not a renderable template
+		t.Files["p.tw"] = c17Marker + "1 exists"
+		name = "lay"
 	}
 	switch cs.ErrPg {
 	case 1:
@@ -89,6 +92,8 @@ func c17Tree(cs c17Case) (Tree, string) {
 	case 3:
 		t.ErrorPage = "err"
 		t.Files["err.tw"] = "CUSTOM {{ undefinedInErrorPage }}"
+	case 5:
+		t.ErrorPage = "lay" // the layout of the tree: loaded, but not a renderable template
 	case 4:
 		t.ErrorPage = "errors/e500"
 		t.Files["errors/e500.tw"] = "CUSTOM-ERROR-PAGE {{ 40 + 2 }} 50% %v off"
@@ -208,7 +213,7 @@ func c17Run(c *Ctx) {
 	order := int64(0)
 	bodies := map[string]map[string]bool{} // non-interference: debug-off configuration -> distinct bodies over all failing pages
 	for _, debug := range []bool{false, true} {
-		for ep := 0; ep < 5; ep++ {
+		for ep := 0; ep < 6; ep++ {
 			for pg := range c17Pages {
 				if !c.Mine() {
 					continue
@@ -274,7 +279,7 @@ func init() {
 		Rule: "complete product: {debug on, off} x {no / valid / missing / run-time-failing / nested-directory custom error page} x {succeeding page; page failing at its start / middle / end after marker output; failing inside its layout, inside an insert, inside a component, after a component, in the second pass of a loop; unknown template} x four error kinds (one whose message contains a per cent sign; pages and the custom error page contain per cent signs too) x {first call, repeated call, after an earlier failing Response served under the opposite debug mode in the same process, after one under the same mode with another error}; plus a non-interference pass: with debug off the body must be byte-identical for every failing template and error kind.  [as built: 15 fault forms (failing identifier / operator / division / modulo, and a failure in a later array element, a later call argument, an object value, a ternary arm, @if / @each / @for headers, a nested assignment, @dump arguments); variants first / second call / prior failing Response under the opposite or same debug mode / loaded under the opposite debug mode then Configure]" +
 			"Non-trivial: the render fails",
 		Bounds: func(tier string) map[string]any {
-			return map[string]any{"configurations": 2 * 5 * len(c17Pages) * len(c17Faults) * 5, "complete": true}
+			return map[string]any{"configurations": 2 * 6 * len(c17Pages) * len(c17Faults) * 5, "complete": true}
 		},
 		Assume:  []string{"the built-in page is recognised by its <html> frame; leak words are the error message parts, identifiers of the failing page, the scratch directory, template file names and the 'Textwire ERROR' prefix"},
 		Workers: 8,
